@@ -176,7 +176,7 @@ def history(draw):
         ops = []
         for _ in range(draw(st.integers(1, 5))):
             k = draw(st.sampled_from(['same', 'same', 'same', 'resize', 'add',
-                                      'delete', 'touch']))
+                                      'delete', 'touch', 'add-dir']))
             ops.append({
                 'k': k, 'sel': draw(st.integers(0, 50)),
                 'name': draw(st.sampled_from(['n1', 'n2', 'x/n3', 'n 4'])),
@@ -325,6 +325,31 @@ def run_case(desc):
                     for r in (A, B):
                         write_file(r, p, op['c'], m)
                     classes.append('add')
+                elif k == 'add-dir':
+                    # a directory that arrives complete with a Manifest of
+                    # its own (copied with its old mtimes preserved)
+                    d = 'pkg-' + op['name'].replace('/', '_').replace(' ', '')
+                    if os.path.lexists(os.path.join(A, d)):
+                        continue
+                    m = min(now, P + op['rel'])
+                    data = {d + '/inner1': op['c'], d + '/inner2': 'two'}
+                    lines = ''.join(
+                        R.Entry('DATA', path=os.path.basename(fp),
+                                size=len(fc),
+                                checksums=R.digests(fc.encode(),
+                                                    HASHES.split())
+                                ).to_line() + '\n'
+                        for fp, fc in sorted(data.items()))
+                    for r in (A, B):
+                        for fp, fc in data.items():
+                            write_file(r, fp, fc, m)
+                        write_file(r, d + '/Manifest', lines, m)
+                    for fp, fc in data.items():
+                        state[fp] = {'c': fc}
+                    classes.append('add-dir-with-manifest')
+                    if m <= P:
+                        nontrivial = True
+                        classes.append('add-dir-with-manifest-old-mtime')
                 elif k == 'delete':
                     del state[p]
                     for r in (A, B):
